@@ -137,6 +137,26 @@ fn run_paths(trace: &mut Trace, pool: &Pool, sel: &[(usize, u64)], order_a: &[us
         Ok((hex, total, "n/a".into()))
     });
     emit(trace, &set, "client_msg", "reverse", res);
+    // --- client message path with ONE entry that does not decode (its key hex damaged): the served list is not the
+    // list of the set without that entry -- it must not yield that set's key (an error is fine)
+    if signers_b.len() >= 2 {
+        let victim = signers_b.len() - 1;
+        let res = guarded(|| -> Result<(String, u64, String), String> {
+            let parts = SignerWithStakeMessagePart::from_signers(signers_b.clone());
+            let mut j = serde_json::to_value(&parts).map_err(|e| e.to_string())?;
+            let key = j[victim]["verification_key"].as_str().ok_or("no verification_key field")?.to_string();
+            j[victim]["verification_key"] = json!(format!("{}zz", &key[..key.len() - 2]));
+            let text = serde_json::to_string(&j).map_err(|e| e.to_string())?;
+            let parts: Vec<SignerWithStakeMessagePart> = serde_json::from_str(&text).map_err(|e| e.to_string())?;
+            let signers = SignerWithStakeMessagePart::try_into_signers(parts).map_err(|e| format!("{e:#}"))?;
+            let b = SignerBuilder::new(&signers, &pool.params).map_err(|e| format!("{e:#}"))?;
+            let avk = b.compute_aggregate_verification_key();
+            let total = avk.to_concatenation_aggregate_verification_key().get_total_stake();
+            Ok((avk_hex(&avk), total, "n/a".into()))
+        });
+        let damaged_set = format!("{set},damaged-entry:{}", signers_b[victim].party_id.chars().take(12).collect::<String>());
+        emit(trace, &damaged_set, "client_msg_damaged_entry", "order-b", res);
+    }
     // --- signer view: each party's own signer (registrations in order A) against the multi-signer over order B
     let signers_a: Vec<SignerWithStake> = order_a.iter().map(|k| with_stake(&pool.signers[*k], stake_of[k])).collect();
     for (k, stake) in sel {
